@@ -468,7 +468,17 @@ impl<'a, 'tcx> Cx<'a, 'tcx> {
             TerminatorKind::Drop { place, target, unwind, .. } => {
                 t.put("k", J::s("drop"));
                 t.put("pl", self.place(place));
-                t.put("ty", J::s(&tystr(self.place_ty(place))));
+                let dty = self.place_ty(place);
+                t.put("ty", J::s(&tystr(dty)));
+                // ADTs with a user Drop impl contained in the dropped value (through generic
+                // arguments, fields, tuples and closure captures): what this drop *may* run
+                let mut dt = Vec::new();
+                collect_dtors(tcx, dty, &mut dt, 0);
+                dt.sort();
+                dt.dedup();
+                if !dt.is_empty() {
+                    t.put("dtors", J::Arr(dt.into_iter().map(|s| J::s(&s)).collect()));
+                }
                 t.put("target", J::n(target.as_usize() as i128));
                 if let mir::UnwindAction::Cleanup(u) = unwind {
                     t.put("unwind", J::n(u.as_usize() as i128));
@@ -553,6 +563,43 @@ fn collect_fn_values<'tcx>(tcx: TyCtxt<'tcx>, t: Ty<'tcx>, out: &mut Vec<String>
                 collect_fn_values(tcx, a, out, depth + 1)
             }
         }
+        _ => {}
+    }
+}
+
+fn collect_dtors<'tcx>(tcx: TyCtxt<'tcx>, t: Ty<'tcx>, out: &mut Vec<String>, depth: usize) {
+    if depth > 6 {
+        return;
+    }
+    match t.kind() {
+        ty::Adt(adt, args) => {
+            if adt.has_dtor(tcx) {
+                out.push(defpath(tcx, adt.did()));
+            }
+            for a in args.iter().filter_map(|a| a.as_type()) {
+                collect_dtors(tcx, a, out, depth + 1);
+            }
+            // fields of workspace-local ADTs (foreign ones are reached through their type arguments)
+            if adt.did().is_local() {
+                for v in adt.variants() {
+                    for f in v.fields.iter() {
+                        let ft = tcx.type_of(f.did).instantiate_identity().skip_norm_wip();
+                        collect_dtors(tcx, ft, out, depth + 1);
+                    }
+                }
+            }
+        }
+        ty::Closure(_, args) => {
+            for u in args.as_closure().upvar_tys() {
+                collect_dtors(tcx, u, out, depth + 1);
+            }
+        }
+        ty::Tuple(ts) => {
+            for x in ts.iter() {
+                collect_dtors(tcx, x, out, depth + 1);
+            }
+        }
+        ty::Array(inner, _) | ty::Slice(inner) => collect_dtors(tcx, *inner, out, depth + 1),
         _ => {}
     }
 }
